@@ -112,10 +112,13 @@ def main(ctx):
     summ = ctx.add_results(res)
     if summ["checked"] + summ["failed"] < total:
         raise vlib.Inconclusive("replayed %d scenarios for %d cases" % (summ["checked"], total))
+    # scenario classes that must have been exercised; judged at the end, and only when the run found no
+    # violation (a defect can empty a class that is counted on the real code's answers)
+    vac = []
     for need in ("hits/sub", "hits/indel", "nohit/sub", "nohit/indel", "hit-at-start/sub", "hit-at-end/sub",
                  "hit-at-start/indel", "hit-at-end/indel", "rc-hits/sub", "rc-hits/indel", "seq-recycled", "seq-fresh"):
-        ctx.expect_vacuity("replay class " + need, ctx.classes.get(need, 0))
-    ctx.expect_vacuity("replay class */window", sum(v for k, v in ctx.classes.items() if k.endswith("/window")))
+        vac.append(("replay class " + need, ctx.classes.get(need, 0)))
+    vac.append(("replay class */window", sum(v for k, v in ctx.classes.items() if k.endswith("/window"))))
     # T ---------------------------------------------------------------------------------------
     trace = ctx.path("trace.ndjson")
     ctx.harness(["record", "C10", "--out", trace, "--n", 6000 if thorough else 700,
@@ -142,8 +145,11 @@ def main(ctx):
             tcls["T:hits"] = tcls.get("T:hits", 0) + (1 if ev["find"] else 0)
     for need in ("R-events", "T:loc", "T:sub", "T:indel", "T:plen63", "T:plen64", "T:plen33-62", "T:plant0", "T:plant1",
                  "T:window-end-effective", "T:seq>=5000", "T:seq<=plen", "T:realigned", "T:hits", "T:e4", "T:e0"):
-        ctx.expect_vacuity("trace class " + need, tcls.get(need, 0))
+        vac.append(("trace class " + need, tcls.get(need, 0)))
     ctx.classes.update(tcls)
+    if not ctx.violations:
+        for name, n in vac:
+            ctx.expect_vacuity(name, n)
     for ev in events:
         if ev["src"] == "T" and ev["k"] == "apat" and ev["find"] and len(ctx.samples) < 6:
             ctx.samples.append({"trace_event": {k: (ev[k] if k != "s" else "(%d symbols)" % len(ev["s"])) for k in ev}})
